@@ -279,7 +279,16 @@ FUNCTIONS['_XLFN._XLWS.FILTER'] = FUNCTIONS['FILTER'] = wrap_func(xfilter)
 
 def args_parser_lookup_array(
         lookup_val, lookup_vec, result_vec=None, match_type=1):
-    result_vec = np.ravel(lookup_vec if result_vec is None else result_vec)
+    if result_vec is None:
+        result_vec = lookup_vec
+        if isinstance(lookup_vec, np.ndarray) and lookup_vec.ndim == 2:
+            # Array form: search the first row (or column) of the table and
+            # answer from the last one.
+            if lookup_vec.shape[1] > lookup_vec.shape[0]:
+                lookup_vec, result_vec = lookup_vec[0], lookup_vec[-1]
+            else:
+                lookup_vec, result_vec = lookup_vec[:, 0], lookup_vec[:, -1]
+    result_vec = np.ravel(result_vec)
     return args_parser_match_array(lookup_val, lookup_vec, match_type) + (
         result_vec,
     )
